@@ -331,7 +331,7 @@ func c17Calls(p parsley.Parser, in string, limit *int, lim int) (calls int, perr
 			panic(r)
 		}
 	}()
-	f := text.NewFile("f", []byte(in))
+	f := newFileOwned("f", []byte(in))
 	ctx := parsley.NewContext(parsley.NewFileSet(f), text.NewReader(f))
 	_, err := parsley.Parse(ctx, combinator.Sentence(p))
 	return ctx.CallCount(), err, false
